@@ -8,7 +8,7 @@ MANIFEST = dict(
    note="PARTIAL: holds on the Representable fragment only (see notes/C07.md for the excluded classes, each a demonstrated defect of the pinned tree). Lazy, discriminated unions, string formats, Default/Prefault, Map, Set, Struct, File, Pipe/Transform are not modelled; user regexes come from a five-entry table with hand-written meanings; registry IDs and reused:'ref' documents are compared after inlining the emitted $ref nodes (the raw document is what the independent validator judges). Instances: ASCII strings, numbers that are multiples of 1/4 below 2^51. Trusted: Lean kernel; the hand-written jsValid (cross-checked on every generated case against kaptinlin/jsonschema on the real document); the Go harness, schema-directed embedding and comparer. The model is validated on generated cases, not for all inputs.",
    design="DESIGN.md §5 C07")
 
-MODULES = ["Gozod.Proofs.C07", "Gozod.Proofs.C07Cases"]
+MODULES = ["Gozod.Proofs.C07", "Gozod.Proofs.C07Lazy", "Gozod.Proofs.C07Cases"]
 GEN = os.path.join(C.LEAN, "Gozod", "Gen", "ToJsonCases.lean")
 THEOREMS = [
     "Gozod.C07.c07_equiv_partial", "Gozod.C07.c07_pres", "Gozod.C07.c07_sound", "Gozod.C07.c07_complete",
@@ -21,6 +21,9 @@ THEOREMS = [
     "Gozod.C07.witness_num_bound_merge", "Gozod.C07.witness_length_overwrites", "Gozod.C07.witness_size_overwrites",
     "Gozod.C07.witness_int_kind_range", "Gozod.C07.witness_strict_catchall", "Gozod.C07.witness_nested_strip",
     "Gozod.C07.witness_strip_size_after_strip", "Gozod.C07.witness_literal_mixed_kinds", "Gozod.C07.c07_full_false",
+    # Lazy on top of the base fragment (Model/JsonSchemaLazy.lean)
+    "Gozod.C07.eqvX", "Gozod.C07.presX", "Gozod.C07.c07_lazy_equiv_partial", "Gozod.C07.c07_lazy_sound", "Gozod.C07.c07_lazy_complete",
+    "Gozod.C07.c07_lazy_wellformed", "Gozod.C07.witness_lazy_typed_inner_unvalidated", "Gozod.C07.witness_lazy_null", "Gozod.C07.c07_lazy_full_false",
     # over the tables regenerated from jsonschema/to.go + core/constants.go (Gen/ToJsonCases.lean)
     "Gozod.C07.c07_codes_covered", "Gozod.C07.c07_cases_partition", "Gozod.C07.c07_modelled_branches", "Gozod.C07.c07_tail_is_applyBag",
     "Gozod.C07.c07_unmodelled_gap", "Gozod.C07.c07_unmodelled_rest", "Gozod.C07.c07_default_unrepresentable",
@@ -51,6 +54,10 @@ def make_key(known_keys):
             return "doc:" + (impl.split(" ")[0] if impl else "empty")
         d = verdict_ok(impl) or "model"
         why = [w for w in C.op_comment(op).split("#why=")[-1].replace("why=", "").split(",") if w]
+        # a listed finding is a defect the MODEL reproduces (that is what its witness theorem is about): a violating
+        # observation the model does not predict is not that finding, whatever excluded classes the schema lies in
+        if d != "model" and M is not None and impl != M and not any(w in UNMIRRORED for w in why):
+            return d + ":not-predicted-by-model:" + "+".join(why or ["none"])
         if not why: return d + ":none"
         if d == "model":
             for w in why:
@@ -134,7 +141,7 @@ def run(res):
         terr = translate(res)
         if terr:
             C.tie_broken(res, "translator C07 (jsonschema/to.go -> Gen/ToJsonCases.lean)", terr)
-            ok, detail = C.prove(res, MODULES[:1], THEOREMS[:30])   # the 30 theorems of Proofs/C07.lean
+            ok, detail = C.prove(res, MODULES[:2], THEOREMS[:39])   # Proofs/C07.lean + C07Lazy.lean
         else:
             ok, detail = C.prove(res, MODULES, THEOREMS)
     if not ok:
